@@ -253,6 +253,9 @@ def _expand_large(params):
         perm = list(range(n))
         r.shuffle(perm)
         spec["explicit_states"] = perm
+        pa = list(range(m))
+        r.shuffle(pa)
+        spec["explicit_actions"] = pa
     normalise_absorbing_successors(spec)
     return spec
 
